@@ -142,21 +142,30 @@ def native_shift_waveform(rng):
     for nlen, dt in ((100, np.float64), (121, np.float32), (128, np.float64)):
         t = np.arange(nlen)
         base = np.stack([-a_ * np.exp(-0.5 * ((t - nlen * 0.42) / 3.0) ** 2) + 0.3 * a_ * np.exp(-0.5 * ((t - nlen * 0.42 - 10) / 6.0) ** 2) for a_ in (1.0, 0.6, 0.3)])   # (trace, time)
-        for cluster in ("single spike", "identical copies", "jittered"):
+        jit = (0.0, 1.3, -2.0, 0.0, 0.4)
+        for cluster in ("single spike", "identical copies", "jittered", "jittered, one trace outside the probe (all NaN)", "jittered, NaN trace first"):
             if cluster == "single spike":
                 wfs = base[None].astype(dt)
             elif cluster == "identical copies":
                 wfs = np.stack([base] * 4).astype(dt)
             else:
-                wfs = np.stack([F.fshift(base, s_, axis=-1) for s_ in (0.0, 1.3, -2.0, 0.0, 0.4)]).astype(dt)
+                wfs = np.stack([F.fshift(base, s_, axis=-1) for s_ in jit]).astype(dt)
+                if "NaN" in cluster:      # what the extraction returns for the channels of the neighbourhood that lie outside the probe
+                    pad = np.full((wfs.shape[0], 1, nlen), np.nan, dtype=dt)
+                    wfs = np.concatenate([pad, wfs] if "first" in cluster else [wfs, pad], axis=1)
             out, sh = W.shift_waveform(wfs.copy())
             if out.shape != wfs.shape:
                 bad.append(("shape", nlen, cluster))
                 continue
             for i in range(wfs.shape[0]):
                 want = F.fshift(wfs[i].astype(float), sh[i], axis=-1)
-                if not np.allclose(out[i], want, atol=1e-5):
-                    bad.append(("waveform not moved by the shift reported for it (a shift of 0 must return it unchanged)", nlen, cluster, i, float(sh[i]), float(np.abs(out[i] - want).max())))
+                if not np.allclose(np.nan_to_num(out[i]), np.nan_to_num(want), atol=1e-5):
+                    bad.append(("waveform not moved by the shift reported for it (a shift of 0 must return it unchanged)", nlen, cluster, i, float(sh[i]), float(np.nanmax(np.abs(out[i] - want)))))
+            if cluster.startswith("jittered"):
+                # copies of one waveform delayed by known amounts: the shifts applied undo the delays (up to one common offset), so that the copies re-align
+                resid = np.asarray(sh, dtype=float) + np.asarray(jit)
+                if not np.all(np.abs(resid - resid[0]) < 0.1):
+                    bad.append(("delayed copies of one waveform are not re-aligned: shift applied + delay is not the same for every copy", nlen, cluster, np.round(resid, 2).tolist()))
     return bad
 
 
